@@ -13,9 +13,16 @@ import (
 	"unsafe"
 )
 
+// the identity of a container as the encoder's reference table keys it: address, type and
+// (for lists) length
+type gkey struct {
+	kind, addr uintptr
+	typ        reflect.Type
+	n          int
+}
 type gvalPrinter struct {
-	ids      map[[2]uintptr]int // (kindcode, address) -> id
-	done     map[[2]uintptr]bool
+	ids      map[gkey]int // container identity -> id
+	done     map[gkey]bool
 	mapOrder map[uintptr][]reflect.Value // map pointer -> keys in wire order (nil: unknown, use MapKeys)
 	b        strings.Builder
 }
@@ -27,8 +34,7 @@ func nameStr(s string) string {
 	return runesHex(s)
 }
 
-func (p *gvalPrinter) id(kind uintptr, addr uintptr) int {
-	k := [2]uintptr{kind, addr}
+func (p *gvalPrinter) id(k gkey) int {
 	if id, ok := p.ids[k]; ok {
 		return id
 	}
@@ -87,8 +93,8 @@ func (p *gvalPrinter) val(v reflect.Value, exported bool) {
 		}
 		id := 0
 		if ptr != 0 {
-			k := [2]uintptr{1, ptr}
-			id = p.id(1, ptr)
+			k := gkey{1, ptr, v.Type(), 0}
+			id = p.id(k)
 			if p.done[k] {
 				fmt.Fprintf(&p.b, "(seen st %d)", id)
 				return
@@ -111,8 +117,8 @@ func (p *gvalPrinter) val(v reflect.Value, exported bool) {
 		id := 0
 		if v.Len() > 0 {
 			addr := uintptr(unsafe.Pointer(v.Pointer()))
-			k := [2]uintptr{2, addr}
-			id = p.id(2, addr)
+			k := gkey{2, addr, v.Type(), v.Len()}
+			id = p.id(k)
 			if p.done[k] {
 				fmt.Fprintf(&p.b, "(seen sl %d)", id)
 				return
@@ -128,8 +134,8 @@ func (p *gvalPrinter) val(v reflect.Value, exported bool) {
 	case reflect.Map:
 		id := 0
 		if v.Len() > 0 {
-			k := [2]uintptr{3, v.Pointer()}
-			id = p.id(3, v.Pointer())
+			k := gkey{3, v.Pointer(), v.Type(), 0}
+			id = p.id(k)
 			if p.done[k] {
 				fmt.Fprintf(&p.b, "(seen mp %d)", id)
 				return
@@ -179,7 +185,7 @@ func sortStrings(s []string) {
 
 // the gval of val; order maps each map (by pointer) to the key order found on the wire
 func gvalString(val interface{}, order map[uintptr][]reflect.Value) string {
-	p := &gvalPrinter{ids: map[[2]uintptr]int{}, done: map[[2]uintptr]bool{}, mapOrder: order}
+	p := &gvalPrinter{ids: map[gkey]int{}, done: map[gkey]bool{}, mapOrder: order}
 	p.val(reflect.ValueOf(val), true)
 	return p.b.String()
 }
